@@ -245,6 +245,31 @@ class Program:
         if isinstance(node, (ast.Tuple, ast.List)):
             vals = [self.fold_const(mod, e) for e in node.elts]
             return tuple(vals) if isinstance(node, ast.Tuple) else list(vals)
+        if isinstance(node, ast.Dict) and all(k is not None for k in node.keys):
+            try:
+                return {self.fold_const(mod, k): self.fold_const(mod, v) for k, v in zip(node.keys, node.values)}
+            except TypeError:
+                raise ValueError
+        if isinstance(node, ast.Subscript) and not isinstance(node.slice, ast.Slice):
+            try:
+                return self.fold_const(mod, node.value)[self.fold_const(mod, node.slice)]
+            except (KeyError, IndexError, TypeError):
+                raise ValueError
+        if isinstance(node, ast.Call) and isinstance(node.func, ast.Attribute) and isinstance(node.func.value, ast.Name) and node.func.value.id == "struct" \
+                and node.func.attr == "calcsize" and len(node.args) == 1:
+            from .interp_ext import fmt_size
+            fmt = self.fold_const(mod, node.args[0])
+            sz = fmt_size(fmt) if isinstance(fmt, str) else None
+            if sz is None:
+                raise ValueError
+            return sz
+        if isinstance(node, ast.Call) and isinstance(node.func, ast.Name) and node.func.id in ("tuple", "list", "len", "range", "frozenset") and not node.keywords:
+            args = [self.fold_const(mod, a) for a in node.args]
+            try:
+                r = {"tuple": tuple, "list": list, "len": len, "range": range, "frozenset": frozenset}[node.func.id](*args)
+            except Exception:
+                raise ValueError
+            return tuple(r) if isinstance(r, range) else r
         if isinstance(node, ast.Name):
             return self.const_value(mod, node.id)
         if isinstance(node, ast.UnaryOp) and isinstance(node.op, (ast.USub, ast.Invert)):
@@ -261,6 +286,18 @@ class Program:
                 except Exception:
                     raise ValueError
         raise ValueError("not const")
+
+    def module_frame_func(self, mod):
+        """a pseudo function standing for the module body (used to evaluate module-level expressions in the module's name space)"""
+        cache = getattr(self, "_modfuncs", None)
+        if cache is None:
+            cache = self._modfuncs = {}
+        if mod.name not in cache:
+            node = ast.FunctionDef(name="<module>", args=ast.arguments(posonlyargs=[], args=[], vararg=None, kwonlyargs=[], kw_defaults=[], kwarg=None, defaults=[]),
+                                   body=[ast.Pass()], decorator_list=[], returns=None, type_comment=None)
+            ast.fix_missing_locations(node)
+            cache[mod.name] = FuncInfo(mod, None, "<module>", node, "function")
+        return cache[mod.name]
 
     def class_const(self, cls, name):
         """value of a class-level table: the class body's simple assignments are folded in order (later ones may use earlier ones,
@@ -401,13 +438,15 @@ class Program:
                             base_prop = hit[1]
                         else:
                             raise AnalysisError("unsupported decorator in %s.%s" % (cls.name, node.name))
-                    elif isinstance(dec, ast.Name) and dec.id in ("staticmethod", "classmethod"):
-                        raise AnalysisError("static/classmethod not modelled: %s.%s" % (cls.name, node.name))
+                    elif isinstance(dec, ast.Name) and dec.id == "staticmethod":
+                        kind = "static"
+                    elif isinstance(dec, ast.Name) and dec.id == "classmethod":
+                        kind = "classmethod"
                     else:
                         raise AnalysisError("unsupported decorator on %s.%s" % (cls.name, node.name))
                 fi = FuncInfo(cls.module, cls, node.name, node, kind, prop=propname)
                 self._scan_nested(fi)
-                if kind == "method":
+                if kind in ("method", "static", "classmethod"):
                     cls.methods[node.name] = fi
                 elif kind == "getter":
                     cls.props[node.name] = PropInfo(node.name, getter=fi)
@@ -671,7 +710,9 @@ class Ctx:
                 return [Target("func", fn, None)]
             if nm in BUILTINS or nm in self.mod.imports:
                 return [Target("external", name=nm)]
-            if nm in self.local_types() or nm in self.func.params:
+            if nm in self.local_types() or nm in self.func.params or nm in self.assigned_names():
+                # a local holding a callable: the functions it may stand for are edges of the enclosing function already
+                # (call_edges() treats every method / function *value* as a potential call)
                 return [Target("external", name="callable:" + nm)]
             if strict:
                 raise AnalysisError("unresolved call %s() in %s" % (nm, self.func.qualname))
@@ -689,9 +730,27 @@ class Ctx:
                 elif kind in ("prop", "classprop"):
                     res.append(Target("external", name="callprop:" + f.attr))
             return res
-        if strict:
-            raise AnalysisError("unsupported call form in %s" % self.func.qualname)
-        return []
+        # `(a if c else b)(..)`, `table[k](..)`, `f(..)(..)`: the callee is a value; its possible targets are covered by call_edges()
+        return [Target("external", name="callable:<expr>")]
+
+    def assigned_names(self):
+        """every name bound inside the function (assignment, loop, with, comprehension, nested def, import, except)"""
+        if getattr(self, "_assigned", None) is None:
+            out = set()
+            holder = self.func.parent.node if self.func.parent is not None else self.func.node
+            for fn in {id(holder): holder, id(self.func.node): self.func.node}.values():
+                for n in ast.walk(fn):
+                    if isinstance(n, ast.Name) and isinstance(n.ctx, (ast.Store, ast.Del)):
+                        out.add(n.id)
+                    elif isinstance(n, (ast.FunctionDef, ast.ClassDef)) and n is not fn:
+                        out.add(n.name)
+                    elif isinstance(n, ast.ExceptHandler) and n.name:
+                        out.add(n.name)
+                    elif isinstance(n, (ast.Import, ast.ImportFrom)):
+                        for al in n.names:
+                            out.add((al.asname or al.name).split(".")[0])
+            self._assigned = out
+        return self._assigned
 
 
 def iter_own_nodes(fnode):
@@ -709,11 +768,23 @@ def iter_own_nodes(fnode):
 def call_edges(prog, func, recv):
     """yield (node, Target) for every call / property access in func under recv"""
     ctx = Ctx(prog, func, recv)
+    callee_ids = {id(n.func) for n in iter_own_nodes(func.node) if isinstance(n, ast.Call)}
     for n in iter_own_nodes(func.node):
         if isinstance(n, ast.Call):
             for t in ctx.resolve_call(n):
                 yield n, t
+        elif isinstance(n, ast.Name) and isinstance(n.ctx, ast.Load) and id(n) not in callee_ids and n.id not in ctx.assigned_names() and n.id not in func.params:
+            # a module-level / nested function used as a value (stored, passed, chosen by a conditional): a potential call
+            holder = func.parent or func
+            fn = holder.nested.get(n.id) or prog.resolve_func_name(func.module, n.id)
+            if fn is not None:
+                yield n, Target("func", fn, recv if fn.kind == "nested" else None)
         elif isinstance(n, ast.Attribute):
+            if isinstance(n.ctx, ast.Load) and id(n) not in callee_ids:
+                # a method used as a value (`f = self._rf24.read`, `(self._a if c else self._b)()`): a potential call
+                for kind, obj, rc in ctx.resolve_attr(n):
+                    if kind == "method":
+                        yield n, Target("func", obj, rc)
             for kind, obj, rc in ctx.resolve_attr(n):
                 if kind == "prop":
                     if isinstance(n.ctx, ast.Store):
